@@ -3,6 +3,10 @@ use std::fs::File;
 use std::os::unix::io::AsRawFd;
 
 pub fn map_rom_file(file: &mut File, size: usize) -> Box<[u8]> {
+  #[cfg(gb_dynarec_verif)]
+  if let Some(buffer) = crate::verif::rom_map_take(file.as_raw_fd(), size) {
+    return buffer;
+  }
   unsafe {
     let pointer: *mut c_void = libc::mmap(
       std::ptr::null_mut(),
@@ -20,6 +24,11 @@ pub fn map_rom_file(file: &mut File, size: usize) -> Box<[u8]> {
 }
 
 pub fn unmap_rom_file(buffer: Box<[u8]>) {
+  #[cfg(gb_dynarec_verif)]
+  let buffer = match crate::verif::rom_map_recycle(buffer) {
+    Some(buffer) => buffer,
+    None => return,
+  };
   let size = buffer.len();
   unsafe {
     libc::munmap(
